@@ -62,6 +62,8 @@ def pow_forward(a:np.ndarray, n:'int | float'):
     return a ** n
 
 def pow_backward(grad:np.ndarray, a:np.ndarray, n:'int | float'):
+    if n == 0: # a ** 0 is constant; n * a ** (n - 1) would be 0 * inf = nan at a == 0
+        return np.zeros_like(a) * grad
     return n * (a ** (n - 1)) * grad
 
 
@@ -69,6 +71,8 @@ def rpow_forward(a:np.ndarray, n:'int | float'):
     return n ** a
 
 def rpow_backward(grad:np.ndarray, exp_n_a:np.ndarray, n:'int | float'):
+    if n == 0: # 0 ** a is constant for a > 0; 0 * log(0) would be 0 * -inf = nan
+        return np.zeros_like(exp_n_a) * grad
     return (exp_n_a * np.log(n)) * grad
 
 
